@@ -60,8 +60,10 @@ def gen_behaviour(rng, cwd_marker=True):
             elif r < 0.85:
                 # Latin-1 bytes only
                 data = ('Andr\u00e9 lives in K\u00f6ln\n' + text).encode('latin-1', errors='replace')
-            elif r < 0.92:
+            elif r < 0.88:
                 data = b'\xef\xbb\xbf' + text.encode('utf-8')
+            elif r < 0.93 and text:
+                data = text.encode('utf-16')          # UTF-16 with its byte-order mark
             else:
                 # a UTF-8 byte-order mark followed later by a Latin-1 byte: the encoding first guessed cannot decode it
                 data = b'\xef\xbb\xbfname,city\n' + text.encode('ascii', errors='replace') + b'Andr\xe9,Paris\n'
